@@ -371,11 +371,11 @@ func (q *qnode) finish() *qnode {
 	return q
 }
 
-func all(t int) *qnode { return &qnode{kind: "all", token: tokenNames[t]} }
+func all(t int) *qnode       { return &qnode{kind: "all", token: tokenNames[t]} }
 func prefix(p string) *qnode { return &qnode{kind: "token-prefix", token: p} }
-func empty() *qnode { return &qnode{kind: "empty"} }
-func un(k ...*qnode) *qnode { return &qnode{kind: "union", kids: k} }
-func in(k ...*qnode) *qnode { return &qnode{kind: "intersection", kids: k} }
+func empty() *qnode          { return &qnode{kind: "empty"} }
+func un(k ...*qnode) *qnode  { return &qnode{kind: "union", kids: k} }
+func in(k ...*qnode) *qnode  { return &qnode{kind: "intersection", kids: k} }
 func binop(o int, k ...*qnode) *qnode {
 	if o == 0 {
 		return un(k...)
@@ -393,12 +393,12 @@ func u(i int) namedKey { return namedKey{fmt.Sprintf("u%d", i), universe[i]} }
 
 func ranges() []krange {
 	return []krange{
-		{kBelow, kPathBeg},  // all points, the sentinels b6.Typed uses
-		{kPathBeg, kAbove},  // all paths
-		{u(1), u(4)},        // value bounds
+		{kBelow, kPathBeg},   // all points, the sentinels b6.Typed uses
+		{kPathBeg, kAbove},   // all paths
+		{u(1), u(4)},         // value bounds
 		{kBetween, kAboveNs}, // bounds that are not values
-		{u(3), u(3)},        // empty range
-		{u(4), u(1)},        // inverted range
+		{u(3), u(3)},         // empty range
+		{u(4), u(1)},         // inverted range
 	}
 }
 
@@ -513,17 +513,17 @@ func (r *ref) apply(c call) (bool, b6.FeatureID) {
 }
 
 type caseRun struct {
-	r      *kit.Result
-	impl   int
-	q      *qnode
-	c      content
-	query  search.Query
-	index  search.Index
-	vals   []b6.FeatureID
-	calls  []call
-	depth  int
-	seen   map[string]bool
-	seq    []uint8 // indices into calls; one shared stack for the whole DFS
+	r     *kit.Result
+	impl  int
+	q     *qnode
+	c     content
+	query search.Query
+	index search.Index
+	vals  []b6.FeatureID
+	calls []call
+	depth int
+	seen  map[string]bool
+	seq   []uint8 // indices into calls; one shared stack for the whole DFS
 }
 
 func (cr *caseRun) describe(seq []uint8) string {
@@ -723,8 +723,8 @@ func main() {
 				gen(5, 1, 1, 1)
 				parts = fmt.Sprintf("part A: all query trees, prefix depth 4, x:b over 3 options, y:c over 2 options (%d (query, contents) pairs); part B: query trees of depth <= 1, prefix depth 5, x:b and y:c fixed at their first option (%d pairs)", n4, len(specs)-n4)
 			} else {
-				gen(3, 3, 2, 2)
-				parts = fmt.Sprintf("prefix depth 3, x:b over 3 options, y:c over 2 options (%d (query, contents) pairs)", len(specs))
+				gen(3, 2, 2, 2)
+				parts = fmt.Sprintf("prefix depth 3, x:b over 2 options, y:c over 2 options (%d (query, contents) pairs)", len(specs))
 			}
 			calls := []call{{}}
 			for _, k := range advanceKeys() {
